@@ -668,3 +668,174 @@ Proof.
   destruct (print_nodes (d_nodes d) vs) as [p|] eqn:P; [|discriminate Hp].
   apply (required_mentioned_inferred _ _ p Hfo Hnr P).
 Qed.
+
+(** * H. [accepted_nodes] from the class of the matches-level round trip: the value-parser half follows from [srt]
+    (a scalar that parses back is in the language of the field's value parser), the count half is the arithmetic
+    condition [fits]: the value range of the generated argument admits the length of every printed group *)
+Definition range_admits (r : vrange) (n : N) : bool :=
+  negb ((0 <? vmin r) && (n =? 0)) &&
+  match r_num_values r with Some k => k =? n | None => (vmin r <=? n) && (n <=? vmax r) end.
+
+Lemma verify_admits c a r g st : a_num a = Some r -> range_admits r (N.of_nat (length g)) = true ->
+  verify_num_args c a g st = ROk tt.
+Proof.
+  intros Hn H. unfold verify_num_args. destruct (is_set s_ignore_errors c); [reflexivity|].
+  rewrite Hn. cbn [expect rbind]. unfold range_admits in H. apply andb_prop in H. destruct H as [H1 H2].
+  apply negb_true_iff in H1. rewrite H1.
+  destruct (r_num_values r) as [k|].
+  - rewrite H2. reflexivity.
+  - apply andb_prop in H2. destruct H2 as [A B]. apply N.leb_le in A, B.
+    destruct (N.of_nat (length g) <? vmin r) eqn:E1; [apply N.ltb_lt in E1; lia|].
+    destruct (vmax r <? N.of_nat (length g)) eqn:E2; [apply N.ltb_lt in E2; lia|]. reflexivity.
+Qed.
+
+Definition fits (f : field) (v : dval) : Prop :=
+  match field_groups f v with
+  | Some (Some gs) =>
+      match field_action f with ACount => bf_num f = r_empty | _ => True end
+      /\ forallb (fun g => range_admits (bf_num f) (N.of_nat (length g))) gs = true
+  | _ => True
+  end.
+Fixpoint fits_all (ns : nodes) (vs : list dval) : Prop :=
+  match ns, vs with
+  | NCons (NArg f) t, v :: vt => fits f v /\ fits_all t vt
+  | _, _ => True
+  end.
+
+Lemma scalar_accepts t ic s x : parse_scalar t ic s = Some x -> vp_parse (vp_of false t) s = None.
+Proof.
+  destruct t as [| | | |e]; cbn [parse_scalar vp_of vp_parse].
+  - destruct (beq s s_true); [reflexivity|]. destruct (beq s s_false); [reflexivity|discriminate].
+  - unfold parse_int_in. destruct (negb (utf8_valid s)); [discriminate|]. destruct (parse_i64 s) as [z|]; [|discriminate].
+    destruct ((0 <=? z) && (z <=? 255))%Z; [reflexivity|discriminate].
+  - unfold parse_int_in. destruct (negb (utf8_valid s)); [discriminate|]. destruct (parse_i64 s) as [z|]; [|discriminate].
+    destruct ((i64_lo <=? z) && (z <=? i64_hi))%Z; [reflexivity|discriminate].
+  - destruct (utf8_valid s); [reflexivity|discriminate].
+  - destruct (utf8_valid s); [reflexivity|discriminate].
+Qed.
+
+Lemma map_opt_in {A B} (g : A -> option B) : forall l r y, map_opt g l = Some r -> In y r -> exists x, In x l /\ g x = Some y.
+Proof.
+  induction l as [|a l IH]; intros r y H Hy; cbn [map_opt] in H.
+  - inversion H; subst. destruct Hy.
+  - destruct (g a) as [b|] eqn:E; [|discriminate H]. destruct (map_opt g l) as [r'|]; [|discriminate H]. inversion H; subst.
+    destruct Hy as [<-|Hy]; [exists a; split; [left; reflexivity|exact E]|].
+    destruct (IH r' y eq_refl Hy) as [x [Hx Gx]]. exists x. split; [right; exact Hx|exact Gx].
+Qed.
+
+(** every printed value of a Set / Append field is the print of one of the value's scalars *)
+Lemma printed_scalars f v gs : ty_ok f = true -> field_groups f v = Some (Some gs) ->
+  (field_action f = ASet \/ field_action f = AAppend) ->
+  forall g s, In g gs -> In s g -> exists x, In x (scalars v) /\ ps (f_t f) x = Some s.
+Proof.
+  intros Hty Hg Hact g s Hgin Hs. unfold field_groups in Hg. unfold ty_ok in Hty.
+  assert (Hvec : forall l ss, map_opt (ps (f_t f)) l = Some ss ->
+            In g (if f_is_positional f then [ss] else map (fun s => [s]) ss) -> exists x, In x l /\ ps (f_t f) x = Some s).
+  { intros l ss M Hin. apply (map_opt_in _ l ss s M). destruct (f_is_positional f).
+    - destruct Hin as [<-|[]]. exact Hs.
+    - apply in_map_iff in Hin. destruct Hin as [s0 [<- Hs0]]. destruct Hs as [<-|[]]. exact Hs0. }
+  destruct (f_ty f) eqn:T; try discriminate Hty.
+  - destruct v; discriminate Hg.
+  - destruct v; try discriminate Hg. destruct l as [|x l]; [discriminate Hg|].
+    destruct (map_opt (ps (f_t f)) (x :: l)) as [ss|] eqn:M; [|discriminate Hg]. inversion Hg; subst gs.
+    apply (Hvec _ _ M Hgin).
+  - destruct v; try discriminate Hg. destruct o as [x|]; [|discriminate Hg].
+    destruct (ps (f_t f) x) as [s0|] eqn:P; [|discriminate Hg]. inversion Hg; subst gs.
+    destruct Hgin as [<-|[]]. destruct Hs as [<-|[]]. exists x. split; [left; reflexivity|exact P].
+  - destruct v; try discriminate Hg. destruct o as [[x|]|]; [| |discriminate Hg].
+    + destruct (ps (f_t f) x) as [s0|] eqn:P; [|discriminate Hg]. inversion Hg; subst gs.
+      destruct Hgin as [<-|[]]. destruct Hs as [<-|[]]. exists x. split; [left; reflexivity|exact P].
+    + inversion Hg; subst gs. destruct Hgin as [<-|[]]. destruct Hs.
+  - destruct v; try discriminate Hg. destruct o as [[|x l]|]; [| |discriminate Hg].
+    + inversion Hg; subst gs. destruct Hgin as [<-|[]]. destruct Hs.
+    + destruct (map_opt (ps (f_t f)) (x :: l)) as [ss|] eqn:M; [|discriminate Hg]. inversion Hg; subst gs.
+      apply (Hvec _ _ M Hgin).
+  - destruct v; try discriminate Hg. destruct Hact as [A|A]; rewrite A in Hg.
+    + destruct (ps (f_t f) v) as [s0|] eqn:P; [|discriminate Hg]. inversion Hg; subst gs.
+      destruct Hgin as [<-|[]]. destruct Hs as [<-|[]]. exists v. split; [left; reflexivity|exact P].
+    + destruct v; discriminate Hg.
+Qed.
+
+Lemma nonother_action f : field_ok f -> f_ty f <> TyOther -> field_action f = ASet \/ field_action f = AAppend.
+Proof.
+  intros Hok Hn. unfold field_ok in Hok. destruct (f_ty f) eqn:T; try (contradiction Hn; reflexivity);
+    destruct Hok as [A _]; unfold field_action; rewrite A; unfold default_action; fold (f_ty f); rewrite T; auto.
+  unfold f_ty, from_syn_ty in T. destruct (f_syn f) as [|s0|s0|]; try discriminate T; auto;
+    destruct s0; cbn in T; try discriminate T; destruct s0; discriminate T.
+Qed.
+
+Section AcceptedOf.
+Variable d : dinput.
+Variable bin : bytes.
+
+Lemma group_accepted_of f v gs : field_ok f -> ty_ok f = true -> Forall (srt (f_t f) (f_icase f)) (scalars v) ->
+  field_groups f v = Some (Some gs) -> field_form f gs -> fits f v ->
+  Forall (group_accepted (built d bin) f) gs.
+Proof.
+  intros Hok Hty Hsr Hg Hform Hfit. unfold fits in Hfit. rewrite Hg in Hfit. destruct Hfit as [Hcnt Hfit].
+  rewrite forallb_forall in Hfit. apply Forall_forall. intros g Hgin. split.
+  - intros st. apply (verify_admits _ _ (bf_num f)); [apply bf_num_eq|apply Hfit; exact Hgin].
+  - assert (Hnu : f_ty f <> TyUnit).
+    { intros T. unfold field_groups in Hg. rewrite T in Hg. destruct v; discriminate Hg. }
+    assert (Hvp : forall a0, field_action f = a0 -> a_vp (bf f) = Some (vp_of (is_count (Some a0)) (f_t f))).
+    { intros a0 <-. rewrite bf_vp_eq. unfold field_vp. destruct (f_ty f); try reflexivity. contradiction Hnu; reflexivity. }
+    unfold field_form in Hform. unfold stored_vals. rewrite bf_action. unfold bf_dmissing.
+    destruct (field_action f) eqn:A; try contradiction.
+    + (* Set *) exists (vp_of false (f_t f)). split; [apply (Hvp ASet eq_refl)|]. cbn [action_default_missing_value].
+      destruct g as [|s0 g0]; [constructor|]. apply Forall_forall. intros s Hs.
+      destruct (printed_scalars f v gs Hty Hg (or_introl A) _ s Hgin Hs) as [x [Hx Px]].
+      rewrite Forall_forall in Hsr. apply (scalar_accepts _ (f_icase f) s x). apply (Hsr x Hx). exact Px.
+    + (* Append *) exists (vp_of false (f_t f)). split; [apply (Hvp AAppend eq_refl)|]. cbn [action_default_missing_value].
+      destruct g as [|s0 g0]; [constructor|]. apply Forall_forall. intros s Hs.
+      destruct (printed_scalars f v gs Hty Hg (or_intror A) _ s Hgin Hs) as [x [Hx Px]].
+      rewrite Forall_forall in Hsr. apply (scalar_accepts _ (f_icase f) s x). apply (Hsr x Hx). exact Px.
+    + (* SetTrue: the flag stores "true"; the field is a bool *)
+      subst gs. destruct Hgin as [<-|[]].
+      assert (Et : f_t f = TBool).
+      { destruct (Ty_eq_dec (f_ty f) TyOther) as [T|T]; [|destruct (nonother_action f Hok T) as [X|X]; rewrite X in A; discriminate A].
+        unfold field_ok in Hok. rewrite T in Hok.
+        unfold field_action in A. destruct (f_action f) as [a0|]; [subst a0; contradiction Hok|]. apply Hok. exact A. }
+      exists VPBool. split; [rewrite (Hvp ASetTrue eq_refl), Et; reflexivity|]. cbn [action_default_missing_value].
+      repeat constructor.
+    + (* Count *) destruct Hform as [n [-> _]]. apply repeat_spec in Hgin. subst g. split; [|reflexivity].
+      assert (Et : f_t f = TU8).
+      { destruct (Ty_eq_dec (f_ty f) TyOther) as [T|T]; [|destruct (nonother_action f Hok T) as [X|X]; rewrite X in A; discriminate A].
+        unfold field_ok in Hok. rewrite T in Hok.
+        unfold field_action in A. destruct (f_action f) as [a0|].
+        - subst a0. apply Hok.
+        - exfalso. unfold default_action in A. fold (f_ty f) in A. rewrite T in A. destruct (f_syn f), (f_t f); discriminate A. }
+      unfold count_flag. rewrite bf_action, (Hvp ACount eq_refl), Et, bf_dmissing_eq, bf_num_eq, Hcnt. unfold bf_dmissing. rewrite A.
+      repeat split; reflexivity.
+Qed.
+
+Lemma accepted_of_ok : forall ns vs, fields_only ns = true -> Forall (fun f => ty_ok f = true) (fields_of ns) ->
+  ok_nodes ns vs -> printable ns vs -> fits_all ns vs -> accepted_nodes d bin ns vs.
+Proof.
+  induction ns as [|n t IH]; intros vs Hfo Hty Hok Hpr Hfit f v gs Hat Hg; [destruct Hat|].
+  destruct n as [f'| |]; cbn [fields_only] in Hfo; try discriminate Hfo.
+  destruct vs as [|v' vt]; [destruct Hat|]. cbn [at_node fields_of ok_nodes ok_node fits_all] in *.
+  inversion Hty as [|? ? Hty1 Hty']; subst. destruct Hok as [[Hfok Hsr] Hokt]. destruct Hfit as [Hf1 Hf2].
+  destruct Hat as [[-> ->]|Hat].
+  - destruct (Hpr f v gs (or_introl (conj eq_refl eq_refl)) Hg) as [Hform _]. split; [exact Hform|].
+    apply (group_accepted_of f v gs Hfok Hty1 Hsr Hg Hform Hf1).
+  - assert (Hpr' : printable t vt) by (intros f0 v0 gs0 Hat0 Hg0; apply (Hpr f0 v0 gs0 (or_intror Hat0) Hg0)).
+    apply (IH vt Hfo Hty' Hokt Hpr' Hf2 f v gs Hat Hg).
+Qed.
+End AcceptedOf.
+
+(** ROUND TRIP AS AN EQUALITY, the class stated without the parser: [ok_nodes] (attribute combinations + scalars that parse
+    back), [fits_all] (value ranges admit the printed group lengths), required fields mentioned *)
+Theorem roundtrip_parse_class d bin vs argv :
+  opt_struct d -> Forall takes_ok (fields_of (d_nodes d)) -> ok_nodes (d_nodes d) vs ->
+  fits_all (d_nodes d) vs -> required_mentioned (d_nodes d) vs ->
+  valid (with_bin (derive_cmd d) bin) = true -> print d vs = Some argv ->
+  derived_parse d (bin :: argv) = PValue vs.
+Proof.
+  intros Hs Htk Hok Hfit Hrm Hv Hp. pose proof Hs as (Hfo & Hof & _ & _).
+  apply (roundtrip_parse d bin vs argv Hs Htk Hok); [|exact Hrm|exact Hv|exact Hp].
+  apply (accepted_of_ok d bin _ _ Hfo); [|exact Hok| |exact Hfit].
+  - eapply Forall_impl; [|exact Hof]. intros f Hf. apply Hf.
+  - apply (printable_nodes _ _ Hfo); [|exact Hok].
+    apply Forall_forall. intros f Hf. pose proof (proj1 (Forall_forall _ _) Hof f Hf) as (H1 & H2 & _).
+    pose proof (proj1 (Forall_forall _ _) Htk f Hf) as H3. auto.
+Qed.
